@@ -615,7 +615,7 @@ def ref_lex(src):
             if p: break
         if p: out.append(KIND[p]); i += len(p); continue
         if ch in KIND: out.append(KIND[ch]); i += 1; continue
-        out += ['TOTHER'] * max(1, len(src[i].encode('utf-8', 'surrogateescape'))); i += 1          # the scanner works on bytes: a multi-byte character outside a literal is one stray token per byte
+        out += ['TOTHER'] * max(1, len(ch.encode('utf-8', 'surrogateescape'))); i += 1          # the scanner works on bytes: a multi-byte character outside a literal is one stray token per byte
     return out, None
 
 
